@@ -1415,6 +1415,9 @@ func dischargeIndexWith(c *Ctx, s *indexSite, inherited int64) (string, string, 
 	if s.Expr == "" {
 		return "I2", "compiler-generated element access of a range loop", true
 	}
+	if ok, why := aiCovered(c, s.Ins, nil); ok {
+		return "I8", why, true
+	}
 	facts := newPFFacts()
 	facts.ctx = c
 	facts.absorb(c, ff.At(b), 0)
